@@ -29,6 +29,8 @@ V_legacy == {"T", "F"}
 V_legacyone == {"T"}
 E_all == {"bare", "lp", "lph", "lpo"}
 E_one == {"bare"}
+Def_no == {FALSE}
+Def_both == BOOLEAN
 NoDev == {}
 DevLegacy == {"legacySlowValidator"}
 J_one == {"junk"}
